@@ -80,6 +80,62 @@ for nmol, mult in ((2, 2), (3, 2), (4, 2), (5, 2), (4, 1)):
     if not numpy.allclose(numpy.linalg.eigvalsh(H), numpy.linalg.eigvalsh(H2), atol=1e-6):
         bad.append("%d molecules, mult %d: spectrum changes under relabelling of the molecules" % (nmol, mult))
 
+# ---- state-level functions: molecule carrying a transition, transition dipole element, state energy -------------------------------
+def vib_aggregate(nmol, with_modes):
+    with qr.energy_units("1/cm"):
+        mols = []
+        for k in range(nmol):
+            m = qr.Molecule([0.0, 12000.0 + 130.0 * k])
+            m.set_dipole(0, 1, [1.0 + k, 0.5 * k, -0.3])
+            if with_modes and k < 2:
+                md = qr.Mode(frequency=100.0 + 40.0 * k)
+                m.add_Mode(md)
+                md.set_nmax(0, 2)
+                md.set_nmax(1, 2)
+                md.set_HR(1, 0.2 + 0.1 * k)
+            mols.append(m)
+        agg = qr.Aggregate(mols)
+        for k in range(nmol - 1):
+            agg.set_resonance_coupling(k, k + 1, 50.0)
+    return agg, mols
+
+
+for nmol, with_modes in ((2, False), (3, False), (2, True), (3, True)):
+    agg, mols = vib_aggregate(nmol, with_modes)
+    sts = [st for (_, st) in agg.allstates(mult=2)]
+    for s1 in sts:
+        es = s1.elstate.elsignature
+        vs = s1.vsig
+        with qr.energy_units("int"):
+            want = sum(mols[k].elenergies[n] for k, n in enumerate(es))
+            modes = [mols[k].get_Mode(i) for k in range(nmol) for i in range(mols[k].get_number_of_modes())] if with_modes else []
+            want += sum(v * md.get_energy(0) for v, md in zip(vs, modes)) if with_modes else 0.0
+            got = s1.energy()
+        if abs(got - want) > 1e-9 * max(1.0, abs(want)):
+            bad.append("%d molecules%s: energy of state %s %s is %.9g, sum of molecular levels and vibrational quanta %.9g"
+                       % (nmol, " with modes" if with_modes else "", es, vs, got, want))
+            break
+    done = False
+    for s1 in sts:
+        for s2 in sts:
+            e1, e2 = s1.elstate.elsignature, s2.elstate.elsignature
+            diff = [i for i in range(nmol) if e1[i] != e2[i]]
+            wantk = diff[0] if (len(diff) == 1 and abs(sum(e1) - sum(e2)) in (1, 2)) else -1
+            gotk = agg._get_exindx(s1, s2)
+            if gotk != wantk:
+                bad.append("%d molecules: _get_exindx(%s, %s) = %d, the transition is on molecule %d" % (nmol, e1, e2, gotk, wantk))
+                done = True
+                break
+            d = agg.transition_dipole(s1, s2)
+            wantd = numpy.zeros(3) if wantk < 0 else numpy.array(mols[wantk].get_dipole(0, 1)) * agg.fc_factor(s1, s2)
+            if not numpy.allclose(numpy.zeros(3) + d, wantd, atol=1e-12):
+                bad.append("%d molecules: transition dipole between %s%s and %s%s is %s, molecular dipole times Franck-Condon overlap %s"
+                           % (nmol, e1, s1.vsig, e2, s2.vsig, d, wantd))
+                done = True
+                break
+        if done:
+            break
+
 for b in bad[:10]:
     print("VIOLATED:", b)
 print("C03 oracle: %d violations" % len(bad))
